@@ -19,9 +19,10 @@ type c10Case struct {
 
 func init() {
 	mc.Register(&mc.Property{
-		ID:     "C10",
-		Word32: true,
-		Level:  "exploration",
+		ID:       "C10",
+		Word32:   true,
+		DebugTag: true,
+		Level:    "exploration",
 		Rule: "E1 bounded-exhaustive enumeration: every height h in [0,32] × every length l ≤ min(h,L) × every l-bit prefix: NewPath/PathLen/PathHeight/PathBits/PathMask/PathStr against the prefix as a '0'/'1' string; and every ordered pair of such nodes of equal height: word order == string order (= pre-order: ancestor first, left before right). Lengths above L (up to 32): every height × every length L < l ≤ h × 9 prefix patterns (zeros, ones, lowest / highest bit only, both alternations, ones but the highest / lowest bit, a fixed constant), same observations, and the order of every pair of these nodes of equal height. " +
 			"A case is one node or one pair; non-trivial when l ≥ 1 (pairs: both non-root and different).",
 		Assumptions: []string{"prefix lengths above L are covered by 9 patterns per (height, length), not completely"},
